@@ -30,7 +30,8 @@ def broken(msg):
         CHK.work.close()
     core.broken(msg)
 
-WORKERS = max(2, min(8, core.NCPU // 2))
+WORKERS = max(2, min(8, core.NCPU // 2))          # quick: the machine is shared
+WORKERS_THOROUGH = max(2, min(14, core.NCPU - 2))  # each job is two single-threaded processes run one after the other
 IGNORED = ("STAT ", "MONITOR:", "T ")
 
 
@@ -182,9 +183,6 @@ class Runner:
 
 def build_all(chk, legs):
     w = chk.work
-    if os.environ.get("C06_DEV_PREBUILT"):  # DEV-ONLY
-        d = os.environ["C06_DEV_PREBUILT"]
-        return {l: os.path.join(d, "mapvm-%s.bin" % l) for l in legs}, {l: "" for l in legs}
     llgo = core.build_llgo(w)
     bins, logs = {}, {}
 
@@ -349,8 +347,7 @@ def main():
             report(*hit)
 
     # ---- 2. random histories
-    specs = gen.histories(chk.seed, chk.tier, avoid_clear_grown=open_memclr, avoid_indirect=open_indirect, avoid_nan_churn=open_nan,
-                          n=(int(os.environ["C06_DEV_N"]) if os.environ.get("C06_DEV_N") else None))  # DEV-ONLY
+    specs = gen.histories(chk.seed, chk.tier, avoid_clear_grown=open_memclr, avoid_indirect=open_indirect, avoid_nan_churn=open_nan)
     bsz = 10 if thorough else 6
     jobs = []
     for i in range(0, len(specs), bsz):
@@ -362,7 +359,7 @@ def main():
 
     failures = []
     ops_total = 0
-    for (bspecs, leg), res in core.pmap(do, jobs, workers=WORKERS):
+    for (bspecs, leg), res in core.pmap(do, jobs, workers=(WORKERS_THOROUGH if thorough else WORKERS)):
         if res and res[0][0] == "__oracle__":
             broken(res[0][1])
         for spec, verdict, info in res:
